@@ -84,6 +84,9 @@ impl View {
     pub fn eval(&self, asg: &[i32]) -> i128 {
         self.a as i128 * asg[self.var] as i128 + self.b as i128
     }
+    pub fn eval_val(&self, v: i32) -> i128 {
+        self.a as i128 * v as i128 + self.b as i128
+    }
     pub fn scaled(&self, s: i32) -> View {
         View {
             var: self.var,
